@@ -358,6 +358,9 @@ package system
 //@   ensures (eq && has) == (len(c) == len(other) && (forall k int :: 0 <= k && k < len(c) ==> itemEq3(c[k], other[k]) == 0))
 //@   ensures !has ==> (exists k int :: 0 <= k && k < len(c) && itemEq3(c[k], other[k]) == 2)
 //@   ensures !has ==> !eq
+// the first pair that is not equal decides: incomparable -> no value; different -> false
+//@   ensures forall k int :: 0 <= k && k < len(c) && len(c) == len(other) && (forall j int :: 0 <= j && j < k ==> itemEq3(c[j], other[j]) == 0) && itemEq3(c[k], other[k]) == 2 ==> !has
+//@   ensures forall k int :: 0 <= k && k < len(c) && len(c) == len(other) && (forall j int :: 0 <= j && j < k ==> itemEq3(c[j], other[j]) == 0) && itemEq3(c[k], other[k]) == 1 ==> has && !eq
 //@   loop 1 (i):
 //@     invariant 0 <= i && i <= len(other) && len(c) == len(other)
 //@     invariant valid ==> (forall k int :: 0 <= k && k < i ==> itemEq3(c[k], other[k]) == 0)
